@@ -37,6 +37,7 @@ macro "wkcases " h:ident : tactic => `(tactic|
     ⟨hpc, hpc', hh, hfl, hbf, hwq, hrq, hpq, hlk, hlk'⟩ | ⟨i, hpc, hpc', hheld, hh, hfl, hbf, hcap, hwq, hrq, hpq, hlk⟩ |
     ⟨i, hpc, hpc', hheld, hh, hfl, hbf, hcap, hwq, hrq, hpq, hlk⟩ | ⟨hpc, hfull, hpc', hh, hfl, hbf, hwq, hrq, hpq, hlk'⟩ |
     ⟨hpc, hfull, hpc', hh, hfl, hbf, hwq, hrq, hpq, hlk'⟩ | ⟨i, hpc, hheld, hpc', hh, hfl, hbf, hcap, hwq, hrq, hpq, hlk⟩ |
+    ⟨hpc, hpc', hh, hfl, hbf, hwq, hrq, hpq, hlk⟩ | ⟨hpc, hpc', hh, hfl, hbf, hwq, hrq, hpq, hlk⟩ |
     ⟨hpc, hpc', hh, hfl, hbf, hwq, hrq, hpq, hlk⟩)
 
 def heldish (w : Worker) : Prop :=
@@ -60,6 +61,8 @@ theorem WKind.lock_cases (h : WKind s s' w w') :
   · refine Or.inl ⟨hlk, ?_⟩
     rw [hpc]; rcases hpc' with h | ⟨h, _⟩ <;> rw [h] <;> rfl
   · exact Or.inl ⟨hlk, by rw [hpc, hpc']; rfl⟩
+  · exact Or.inl ⟨hlk, by rw [hpc, hpc']; rfl⟩
+  · exact Or.inl ⟨hlk, by rw [hpc, hpc']; rfl⟩
 
 theorem WKind.held_ok (h : WKind s s' w w') (h0 : heldish w → w.held.isSome) : heldish w' → w'.held.isSome := by
   unfold heldish at *
@@ -75,6 +78,8 @@ theorem WKind.held_ok (h : WKind s s' w w') (h0 : heldish w → w.held.isSome) :
   · rw [hh]; exact h0 (Or.inr (Or.inr (Or.inr ⟨hpc, hfull⟩)))
   · rcases hpc' with h | ⟨h, _⟩ <;> rw [h] at hw' <;> simp at hw'
   · rcases hpc' with h | ⟨h, _⟩ <;> rw [h] at hw' <;> simp at hw'
+  · rw [hpc'] at hw'; simp at hw'
+  · rw [hpc'] at hw'; simp at hw'
   · rw [hpc'] at hw'; simp at hw'
 
 def earlyPc (w : Worker) : Prop := w.pc = .notStarted ∨ w.pc = .bfClear ∨ w.pc = .bfSet
@@ -104,21 +109,25 @@ theorem WKind.pcs (h : WKind s s' w w') : w.pc ≠ .notStarted ∧ w.pc ≠ .exi
 
 /-- how a worker step touches the queues, and whether the worker leaves -/
 theorem WKind.acct (h : WKind s s' w w') :
-    (w'.pc ≠ .exited ∧ s'.replQ = s.replQ ∧ (s'.workQ = s.workQ ∨ ∃ i, s.workQ = some i :: s'.workQ)) ∨
-    (w'.pc = .exited ∧ w.pc = .get ∧ s.workQ = none :: s'.workQ ∧ s'.replQ = s.replQ) ∨
-    (w'.pc = .exited ∧ w.pc = .retire ∧ s'.workQ = s.workQ ∧ s'.replQ = s.replQ ++ [some w.wid]) := by
+    (gone w'.pc = false ∧ s'.replQ = s.replQ ∧ (s'.workQ = s.workQ ∨ ∃ i, s.workQ = some i :: s'.workQ) ∧
+      gone w.pc = false) ∨
+    (gone w'.pc = true ∧ w.pc = .get ∧ s.workQ = none :: s'.workQ ∧ s'.replQ = s.replQ ∧ gone w.pc = false) ∨
+    (gone w'.pc = true ∧ w.pc = .retire ∧ s'.workQ = s.workQ ∧ s'.replQ = s.replQ ++ [some w.wid] ∧ gone w.pc = false) ∨
+    (gone w'.pc = true ∧ gone w.pc = true ∧ s'.workQ = s.workQ ∧ s'.replQ = s.replQ) := by
   wkcases h
-  · exact Or.inl ⟨by rw [hpc']; simp, hpq, Or.inl hwq⟩
-  · exact Or.inl ⟨by rw [hpc']; simp, hpq, Or.inl hwq⟩
-  · exact Or.inr (Or.inl ⟨hpc', hpc, hwq, hpq⟩)
-  · exact Or.inl ⟨by rw [hpc']; simp, hpq, Or.inr ⟨i, hwq⟩⟩
-  · exact Or.inl ⟨by rw [hpc']; simp, hpq, Or.inl hwq⟩
-  · exact Or.inl ⟨by rw [hpc']; simp, hpq, Or.inl hwq⟩
-  · exact Or.inl ⟨by rw [hpc']; simp, hpq, Or.inl hwq⟩
-  · exact Or.inl ⟨by rw [hpc']; simp, hpq, Or.inl hwq⟩
-  · exact Or.inl ⟨by rcases hpc' with h | ⟨h, _⟩ <;> rw [h] <;> simp, hpq, Or.inl hwq⟩
-  · exact Or.inl ⟨by rcases hpc' with h | ⟨h, _⟩ <;> rw [h] <;> simp, hpq, Or.inl hwq⟩
-  · exact Or.inr (Or.inr ⟨hpc', hpc, hwq, hpq⟩)
+  · exact Or.inl ⟨by rw [hpc']; rfl, hpq, Or.inl hwq, by rw [hpc]; rfl⟩
+  · exact Or.inl ⟨by rw [hpc']; rfl, hpq, Or.inl hwq, by rw [hpc]; rfl⟩
+  · exact Or.inr (Or.inl ⟨by rw [hpc']; rfl, hpc, hwq, hpq, by rw [hpc]; rfl⟩)
+  · exact Or.inl ⟨by rw [hpc']; rfl, hpq, Or.inr ⟨i, hwq⟩, by rw [hpc]; rfl⟩
+  · exact Or.inl ⟨by rw [hpc']; rfl, hpq, Or.inl hwq, by rw [hpc]; rfl⟩
+  · exact Or.inl ⟨by rw [hpc']; rfl, hpq, Or.inl hwq, by rw [hpc]; rfl⟩
+  · exact Or.inl ⟨by rw [hpc']; rfl, hpq, Or.inl hwq, by rw [hpc]; rfl⟩
+  · exact Or.inl ⟨by rw [hpc']; rfl, hpq, Or.inl hwq, by rw [hpc]; rfl⟩
+  · exact Or.inl ⟨by rcases hpc' with h | ⟨h, _⟩ <;> rw [h] <;> rfl, hpq, Or.inl hwq, by rw [hpc]; rfl⟩
+  · exact Or.inl ⟨by rcases hpc' with h | ⟨h, _⟩ <;> rw [h] <;> rfl, hpq, Or.inl hwq, by rw [hpc]; rfl⟩
+  · exact Or.inr (Or.inr (Or.inl ⟨by rw [hpc']; rfl, hpc, hwq, hpq, by rw [hpc]; rfl⟩))
+  · exact Or.inr (Or.inr (Or.inl ⟨by rw [hpc']; rfl, hpc, hwq, hpq, by rw [hpc]; rfl⟩))
+  · exact Or.inr (Or.inr (Or.inr ⟨by rw [hpc']; rfl, by rw [hpc]; rfl, hwq, hpq⟩))
 
 theorem WKind.resQ_cases (h : WKind s s' w w') : s'.resQ = s.resQ ∨ ∃ i, s'.resQ = s.resQ ++ [some i] := by
   wkcases h
@@ -219,10 +228,11 @@ theorem ReplI_stepW (hP : ProcI s) (hV : ReplI s) (h : WStep s s' wid w w') : Re
   obtain ⟨r1, r2, r3, r4, r5, r6⟩ := hV
   have hac := h.kind.acct
   have hrq : s'.replQ = s.replQ ∨ ∃ k, s'.replQ = s.replQ ++ [some k] := by
-    rcases hac with ⟨_, e, _⟩ | ⟨_, _, _, e⟩ | ⟨_, _, _, e⟩
+    rcases hac with ⟨_, e, _⟩ | ⟨_, _, _, e, _⟩ | ⟨_, _, _, e, _⟩ | ⟨_, _, _, e⟩
     · exact Or.inl e
     · exact Or.inl e
     · exact Or.inr ⟨_, e⟩
+    · exact Or.inl e
   constructor
   · rw [h.same.cfg, h.same.cpc, h.same.rAlive]; exact r1
   · rw [h.same.rAlive, h.same.rpc]; exact r2
@@ -234,8 +244,8 @@ theorem ReplI_stepW (hP : ProcI s) (hV : ReplI s) (h : WStep s s' wid w w') : Re
     rw [h.same.cpc, h.same.cfg]
     rw [h.same.procs] at hin
     rcases hmem x hx with rfl | ⟨hx0, hne⟩
-    · rcases hac with ⟨e, _⟩ | ⟨_, _, e, _⟩ | ⟨_, e1, _, e2⟩
-      · exact absurd hpc e
+    · rcases hac with ⟨e, _⟩ | ⟨_, _, e, _⟩ | ⟨_, e1, _, e2, _⟩ | ⟨_, e1, _, _⟩
+      · rw [e] at hpc; cases hpc
       · left
         cases hc : exitPhasePc s.cpc
         · exact absurd (by rw [e]; simp) (r5 hc)
@@ -245,15 +255,20 @@ theorem ReplI_stepW (hP : ProcI s) (hV : ReplI s) (h : WStep s s' wid w w') : Re
         rw [h.wid']
         apply pending_mem_of_replQ
         rw [e2]; simp
+      · rw [h.wid'] at hin ⊢
+        rcases r4 w h.mem e1 hin with hh | ⟨hf, hp⟩
+        · exact Or.inl hh
+        · exact Or.inr ⟨hf, pending_sub_of_replQ h.same.rpc hrq hp⟩
     · rcases r4 x hx0 hpc hin with hh | ⟨hf, hp⟩
       · exact Or.inl hh
       · exact Or.inr ⟨hf, pending_sub_of_replQ h.same.rpc hrq hp⟩
   · intro hc; rw [h.same.cpc] at hc
     have := r5 hc
-    rcases hac with ⟨_, _, e | ⟨i, e⟩⟩ | ⟨_, _, e, _⟩ | ⟨_, _, e, _⟩
+    rcases hac with ⟨_, _, e | ⟨i, e⟩, _⟩ | ⟨_, _, e, _⟩ | ⟨_, _, e, _⟩ | ⟨_, _, e, _⟩
     · rw [e]; exact this
     · rw [e] at this; intro hm; exact this (List.mem_cons_of_mem _ hm)
     · rw [e] at this; intro hm; exact this (List.mem_cons_of_mem _ hm)
+    · rw [e]; exact this
     · rw [e]; exact this
   · rw [h.same.cpc, h.same.cfg]; exact r6
 
@@ -290,12 +305,10 @@ theorem CntI_stepW (hL : LInv s) (hP : ProcI s) (hV : CntI s) (h : WStep s s' wi
   obtain ⟨k1, k2, k3, k4⟩ := hV
   have hs := h.same
   have hlive := liveCnt_upd hL h.mem h.workers
-  have hne := h.kind.pcs.2.1
-  rw [if_neg hne] at hlive
   have hss := stopsSent_congr hs.cpc hs.procs
   have hac := h.kind.acct
-  rcases hac with ⟨e1, e2, e3⟩ | ⟨e1, e0, e2, e3⟩ | ⟨e1, e0, e2, e3⟩
-  · rw [if_neg e1] at hlive
+  rcases hac with ⟨e1, e2, e3, eg⟩ | ⟨e1, e0, e2, e3, eg⟩ | ⟨e1, e0, e2, e3, eg⟩ | ⟨e1, eg, e2, e3⟩
+  · simp only [e1, eg, Bool.false_eq_true, if_false] at hlive
     have hp : pending s' = pending s := pending_congr hs.rpc (by rw [e2])
     have hn : noneCount s'.workQ = noneCount s.workQ := by
       rcases e3 with e | ⟨i, e⟩
@@ -306,7 +319,7 @@ theorem CntI_stepW (hL : LInv s) (hP : ProcI s) (hV : CntI s) (h : WStep s s' wi
     · rw [hs.cpc, hss, hn, hs.procs]; intro hc; have := k2 hc; omega
     · rw [hs.cpc, hss, hn]; exact k3
     · rw [hs.cfg, hss, hn, hs.procs]; intro hc; have := k4 hc; omega
-  · rw [if_pos e1] at hlive
+  · simp only [e1, eg, Bool.false_eq_true, if_false, if_true] at hlive
     have hp : pending s' = pending s := pending_congr hs.rpc (by rw [e3])
     have hn : noneCount s.workQ = noneCount s'.workQ + 1 := by rw [e2, noneCount_cons_none]
     constructor
@@ -314,7 +327,7 @@ theorem CntI_stepW (hL : LInv s) (hP : ProcI s) (hV : CntI s) (h : WStep s s' wi
     · rw [hs.cpc, hss, hs.procs]; intro hc; have := k2 hc; omega
     · rw [hs.cpc, hss]; intro hc; have := k3 hc; omega
     · rw [hs.cfg, hss, hs.procs]; intro hc; have := k4 hc; omega
-  · rw [if_pos e1] at hlive
+  · simp only [e1, eg, Bool.false_eq_true, if_false, if_true] at hlive
     have hp := pending_length_append hs.rpc _ e3
     have hfac := hP.retireF w h.mem e0
     constructor
@@ -322,6 +335,14 @@ theorem CntI_stepW (hL : LInv s) (hP : ProcI s) (hV : CntI s) (h : WStep s s' wi
     · rw [hs.cpc, hss, e2, hs.procs]; intro hc; have := k2 hc; omega
     · rw [hs.cpc, hss, e2]; exact k3
     · rw [hs.cfg, hfac]; intro hc; cases hc
+  · -- `end()` of a retired worker: nothing that is counted changes
+    simp only [e1, eg, if_true] at hlive
+    have hp : pending s' = pending s := pending_congr hs.rpc (by rw [e3])
+    constructor
+    · rw [hp, hs.procs]; omega
+    · rw [hs.cpc, hss, e2, hs.procs]; intro hc; have := k2 hc; omega
+    · rw [hs.cpc, hss, e2]; exact k3
+    · rw [hs.cfg, hss, e2, hs.procs]; intro hc; have := k4 hc; omega
 
 theorem LiveInv_stepW (hf : NoFaults s.cfg) (hwc : WellCfg s.cfg) (hL : LInv s) (hV : LiveInv s)
     (h : stepW s wid = some s') : LiveInv s' := by
